@@ -283,3 +283,323 @@ pub fn obj_shape(o: &ObjSpec, oti: &OtiSpec, tl: u64) -> String {
         std::mem::discriminant(&o.source),
     )
 }
+
+// ---------------------------------------------------------------- scripted sender runs
+
+#[derive(Clone, Debug, PartialEq, Eq)]
+pub enum When {
+    /// before the first read
+    Start,
+    /// as soon as this many packets have been emitted in total
+    Packets(usize),
+    /// at the first poll instant >= this many ms after the virtual epoch
+    TimeMs(u64),
+}
+
+#[derive(Clone, Debug, PartialEq, Eq)]
+pub enum Op {
+    Add(usize),
+    Publish,
+    Remove(usize),
+    Trigger(usize, Option<u64>),
+    SetComplete,
+    /// allocate a TOI handle and add the object with it
+    AddWithHandle(usize),
+}
+
+#[derive(Clone, Debug)]
+pub struct OpRec {
+    pub op: Op,
+    pub pkt_index: usize,
+    pub t: SystemTime,
+    pub ok: bool,
+    pub note: String,
+}
+
+#[derive(Clone, Debug)]
+pub struct StateSample {
+    pub pkt_index: usize,
+    pub t: SystemTime,
+    pub nb_objects: usize,
+    /// (object index, toi, is_added, nb_transfers)
+    pub per_obj: Vec<(usize, u128, bool, Option<u64>)>,
+    /// TOIs listed by get_objects_in_fdt
+    pub in_fdt: Vec<u128>,
+    /// true when taken after a drain returned None (quiescent)
+    pub quiescent: bool,
+    /// packets emitted by the drain that just ended
+    pub drained: usize,
+}
+
+pub struct ScriptRun {
+    pub spec: SenderSpec,
+    pub objs: Vec<ObjSpec>,
+    pub tois: Vec<Option<u128>>,
+    pub transfer_len: Vec<Option<u64>>,
+    pub stream: Vec<SPkt>,
+    pub sub_events: Vec<(usize, SubEv)>,
+    pub ops: Vec<OpRec>,
+    pub samples: Vec<StateSample>,
+    pub seek_logs: Vec<Option<Arc<std::sync::Mutex<Vec<String>>>>>,
+    /// poll instants used (ms after epoch)
+    pub instants: Vec<u64>,
+    pub fdt_xml_at_end: Option<Vec<u8>>,
+}
+
+#[derive(Clone, Debug)]
+pub struct ScriptOpts {
+    /// poll instants, ms after the virtual epoch (non decreasing)
+    pub instants: Vec<u64>,
+    /// drain (read until None) or single read per instant
+    pub drain: bool,
+    pub max_packets: usize,
+    /// cap on the packets of one drain
+    pub max_per_instant: usize,
+    /// stop when no object is left and all ops were executed
+    pub stop_when_empty: bool,
+}
+
+impl ScriptOpts {
+    pub fn every(step_ms: u64, n: usize) -> ScriptOpts {
+        ScriptOpts {
+            instants: (0..n as u64).map(|i| i * step_ms).collect(),
+            drain: true,
+            max_packets: 50_000,
+            max_per_instant: 20_000,
+            stop_when_empty: true,
+        }
+    }
+}
+
+fn sample(
+    sender: &mut Sender,
+    tois: &[Option<u128>],
+    pkt_index: usize,
+    t: SystemTime,
+    quiescent: bool,
+    drained: usize,
+) -> StateSample {
+    let per_obj = tois
+        .iter()
+        .enumerate()
+        .filter_map(|(i, t)| t.map(|t| (i, t)))
+        .map(|(i, t)| (i, t, sender.is_added(t), sender.nb_transfers(t)))
+        .collect();
+    let mut in_fdt: Vec<u128> = sender.get_objects_in_fdt().keys().copied().collect();
+    in_fdt.sort();
+    StateSample {
+        pkt_index,
+        t,
+        nb_objects: sender.nb_objects(),
+        per_obj,
+        in_fdt,
+        quiescent,
+        drained,
+    }
+}
+
+pub fn run_script(
+    spec: &SenderSpec,
+    objs: &[ObjSpec],
+    script: &[(When, Op)],
+    opts: &ScriptOpts,
+) -> Result<ScriptRun, String> {
+    let (mut sender, rec) = new_sender(spec)?;
+    let mut tois: Vec<Option<u128>> = vec![None; objs.len()];
+    let mut transfer_len: Vec<Option<u64>> = vec![None; objs.len()];
+    let mut seek_logs: Vec<Option<Arc<std::sync::Mutex<Vec<String>>>>> = vec![None; objs.len()];
+    let mut tmp = vec![];
+    let mut stream: Vec<SPkt> = vec![];
+    let mut ops: Vec<OpRec> = vec![];
+    let mut samples: Vec<StateSample> = vec![];
+    let mut done = vec![false; script.len()];
+    let mut instants_used = vec![];
+
+    let exec = |sender: &mut Sender,
+                    op: &Op,
+                    now: SystemTime,
+                    pkt_index: usize,
+                    tois: &mut Vec<Option<u128>>,
+                    transfer_len: &mut Vec<Option<u64>>,
+                    seek_logs: &mut Vec<Option<Arc<std::sync::Mutex<Vec<String>>>>>,
+                    tmp: &mut Vec<Option<std::path::PathBuf>>|
+     -> OpRec {
+        let (ok, note) = match op {
+            Op::Add(i) | Op::AddWithHandle(i) => match build_object(&objs[*i]) {
+                Err(e) => (false, format!("build: {}", e)),
+                Ok(mut b) => {
+                    let tl = b.desc.transfer_length;
+                    seek_logs[*i] = b.seek_log.clone();
+                    tmp.push(b.tmp_path.clone());
+                    if matches!(op, Op::AddWithHandle(_)) {
+                        let h = sender.allocate_toi();
+                        b.desc.set_toi(h);
+                    }
+                    match sender.add_object(objs[*i].priority, b.desc) {
+                        Ok(t) => {
+                            tois[*i] = Some(t);
+                            transfer_len[*i] = Some(tl);
+                            (true, format!("toi={}", t))
+                        }
+                        Err(e) => (false, format!("{:?}", e)),
+                    }
+                }
+            },
+            Op::Publish => match sender.publish(now) {
+                Ok(_) => (true, String::new()),
+                Err(e) => (false, format!("{:?}", e)),
+            },
+            Op::Remove(i) => match tois[*i] {
+                Some(t) => (sender.remove_object(t), String::new()),
+                None => (false, "no toi".into()),
+            },
+            Op::Trigger(i, at) => match tois[*i] {
+                Some(t) => (sender.trigger_transfer_at(t, at.map(util::at)), String::new()),
+                None => (false, "no toi".into()),
+            },
+            Op::SetComplete => {
+                sender.set_complete();
+                (true, String::new())
+            }
+        };
+        OpRec {
+            op: op.clone(),
+            pkt_index,
+            t: now,
+            ok,
+            note,
+        }
+    };
+
+    let mut err: Option<String> = None;
+    'outer: for (ii, &ms) in opts.instants.iter().enumerate() {
+        let now = util::at(ms);
+        instants_used.push(ms);
+        let mut drained = 0usize;
+        loop {
+            // due operations
+            for (k, (w, op)) in script.iter().enumerate() {
+                if done[k] {
+                    continue;
+                }
+                let due = match w {
+                    When::Start => ii == 0 && drained == 0,
+                    When::Packets(n) => stream.len() >= *n,
+                    When::TimeMs(t) => ms >= *t,
+                };
+                // keep script order: an op never runs before an earlier one
+                if !due {
+                    break;
+                }
+                let r = exec(&mut sender, op, now, stream.len(), &mut tois, &mut transfer_len, &mut seek_logs, &mut tmp);
+                ops.push(r);
+                done[k] = true;
+                samples.push(sample(&mut sender, &tois, stream.len(), now, false, 0));
+            }
+            rec.pkt_index.store(stream.len(), std::sync::atomic::Ordering::Relaxed);
+            let p = util::with_budget(READ_BUDGET, || sender.read(now));
+            match p {
+                None => break,
+                Some(b) => {
+                    match decode_stream_pkt(b, now) {
+                        Ok(p) => stream.push(p),
+                        Err(e) => {
+                            err = Some(format!("undecodable packet emitted: {}", e));
+                            break 'outer;
+                        }
+                    }
+                    drained += 1;
+                    if !opts.drain {
+                        break;
+                    }
+                    if drained > opts.max_per_instant {
+                        err = Some(format!("more than {} packets at one instant", opts.max_per_instant));
+                        break 'outer;
+                    }
+                }
+            }
+        }
+        samples.push(sample(&mut sender, &tois, stream.len(), now, true, drained));
+        if stream.len() >= opts.max_packets {
+            break;
+        }
+        if opts.stop_when_empty && done.iter().all(|d| *d) && sender.nb_objects() == 0 && drained == 0 {
+            break;
+        }
+    }
+    let fdt_xml_at_end = sender
+        .fdt_xml_data(util::at(*instants_used.last().unwrap_or(&0)))
+        .ok();
+    drop(sender);
+    cleanup_tmp(&tmp);
+    if let Some(e) = err {
+        return Err(e);
+    }
+    let sub_events = rec.events.lock().unwrap().clone();
+    Ok(ScriptRun {
+        spec: spec.clone(),
+        objs: objs.to_vec(),
+        tois,
+        transfer_len,
+        stream,
+        sub_events,
+        ops,
+        samples,
+        seek_logs,
+        instants: instants_used,
+        fdt_xml_at_end,
+    })
+}
+
+impl ScriptRun {
+    pub fn oti_of(&self, i: usize) -> &OtiSpec {
+        self.objs[i].oti.as_ref().unwrap_or(&self.spec.oti)
+    }
+    pub fn json(&self) -> Value {
+        json!({"sender": self.spec.json(),
+            "objects": self.objs.iter().map(|o| o.json()).collect::<Vec<_>>(),
+            "tois": self.tois.iter().map(|t| t.map(|v| v.to_string())).collect::<Vec<_>>(),
+            "ops": self.ops.iter().map(|o| format!("{:?}@pkt{} ok={} {}", o.op, o.pkt_index, o.ok, o.note)).collect::<Vec<_>>(),
+            "packets": self.stream.len()})
+    }
+    /// transfers of object `toi` as [start_pkt_index, stop_pkt_index) pairs
+    /// (stop = None when the transfer was still running at the end)
+    pub fn transfers_of(&self, toi: u128) -> Vec<(usize, Option<usize>)> {
+        transfers_of(&self.sub_events, toi)
+    }
+    pub fn summary(&self, max: usize) -> Vec<String> {
+        self.stream
+            .iter()
+            .take(max)
+            .map(|p| {
+                format!(
+                    "toi={} sbn={} esi={} len={}{}{}",
+                    p.toi(),
+                    p.dec.sbn,
+                    p.dec.esi,
+                    p.payload().len(),
+                    if p.dec.lct.b { " B" } else { "" },
+                    p.dec.fdt.map(|f| format!(" fdt#{}", f.1)).unwrap_or_default()
+                )
+            })
+            .collect()
+    }
+}
+
+pub fn transfers_of(ev: &[(usize, SubEv)], toi: u128) -> Vec<(usize, Option<usize>)> {
+    let mut out: Vec<(usize, Option<usize>)> = vec![];
+    for (i, e) in ev {
+        match e {
+            SubEv::Start(t, _) if *t == toi => out.push((*i, None)),
+            SubEv::Stop(t, _) if *t == toi => {
+                if let Some(last) = out.last_mut() {
+                    if last.1.is_none() {
+                        last.1 = Some(*i);
+                    }
+                }
+            }
+            _ => {}
+        }
+    }
+    out
+}
